@@ -1,3 +1,5 @@
 import XProofs.Properties.C11
 #print axioms Properties.C11.C11_roundtrip_partial
 #print axioms Properties.C11.C11_print_injective
+#print axioms Properties.C11.C11_load_dump_reacts_identically
+#print axioms Properties.C11.C11_same_definitions_same_behaviour
